@@ -30,8 +30,8 @@ PROPERTIES = {
 # ---- send_plan (C01, C02, C13 sending side) -----------------------------------------------------
 _sp_sym = "reported SO_SNDBUF in [4096, 2^24], message length in [0, 2^26], ENOBUFS pattern over the first 8 attempts (where named _enobufs)"
 _sp_b = "unwind 12; <= 10 transmission attempts per send (model capacity, more = outside the bound); attachments: none or sender+receiver+zero-length region"
-H("send_plan_noatt_nofault", ["C01", "C02"], features="k_rec", sym=_sp_sym, bounds=_sp_b)
-H("send_plan_att_nofault", ["C01", "C02", "C04"], features="k_rec", sym=_sp_sym, bounds=_sp_b)
+H("send_plan_noatt_nofault", ["C01", "C02"], features="k_rec", sym=_sp_sym, bounds=_sp_b, opt=["REACH_ERR"])
+H("send_plan_att_nofault", ["C01", "C02", "C04"], features="k_rec", sym=_sp_sym, bounds=_sp_b, opt=["REACH_ERR"])
 H("send_plan_noatt_enobufs", ["C13", "C02"], features="k_rec", sym=_sp_sym, bounds=_sp_b, timeout=1800)
 H("send_plan_att_enobufs", ["C13"], features="k_rec", sym=_sp_sym, bounds=_sp_b, timeout=1800)
 PROPERTIES.update({
@@ -51,3 +51,34 @@ for n in ["rt_two_1_57", "rt_two_57_24", "rt_two_25_25"]:
 for n in ["ipc_val_u8", "ipc_val_u64", "ipc_val_tuple_some", "ipc_val_tuple_none", "ipc_val_enum_a", "ipc_val_enum_b", "ipc_val_enum_c", "ipc_val_arr4",
           "ipc_val_f64", "ipc_val_vec_0", "ipc_val_vec_3", "ipc_val_arr32", "ipc_bytes_0", "ipc_bytes_8"]:
     H(n, ["C01"], sym="the sent VALUE symbolic (type in the name); reported SO_SNDBUF 64", bounds="unwind 8 (40 for arr32); value SHAPE (variant / Option tag / Vec length) concrete per harness, data symbolic")
+
+# ---- shared memory (C05, C18) ------------------------------------------------------------------
+for n in ["shm_platform_1_1", "shm_platform_3_2_clone", "shm_platform_8_5_clone2_swapped"]:
+    H(n, ["C05", "C18"], sym="region contents and fill byte symbolic; lengths (name suffix), clone count and order concrete",
+      bounds="unwind 10; lengths <= 8; 2 regions per message")
+for n in ["shm_ipc_0", "shm_ipc_3", "shm_ipc_8"]:
+    H(n, ["C05"], sym="region contents and fill byte symbolic; IpcSharedMemory through ipc::channel, length in the name", bounds="unwind 10")
+for n in ["shm_zero_from_bytes", "shm_zero_from_byte", "shm_zero_received"]:
+    H(n, ["C18"], sym="zero-length OsIpcSharedMemory at the platform level: create, Deref, clone, ==, send/receive", bounds="unwind 10")
+
+# ---- vanished receivers (C09) -------------------------------------------------------------------
+for n in ["gone_dropped_small", "gone_dropped_small_att", "gone_dropped_multi_att", "gone_transit_small", "gone_transit_multi_att",
+          "gone_transit_dropped_small", "gone_transit_dropped_multi_att", "gone_transit_received_small_att",
+          "gone_transit_received_multi", "gone_ipc_dropped"]:
+    H(n, ["C09"], sym="payload bytes symbolic; scenario (dropped / in transit / transit then carrier dropped / transit then unpacked), shape (3 or 57 bytes) and attachment concrete",
+      bounds="unwind 6; 1 or 3 packets; <= 1 attachment")
+
+# ---- receive modes (C10) -------------------------------------------------------------------------
+H("modes_try_recv_sequence", ["C10", "C03"], sym="message values symbolic; call sequence concrete", bounds="unwind 8")
+H("modes_try_recv_multi", ["C10"], sym="57 payload bytes symbolic", bounds="unwind 8")
+H("modes_timeout_arith", ["C10"], sym="Duration fully symbolic (secs: u64, nanos < 1e9); poll(2) stub reports time-out", bounds="unwind 8")
+H("modes_timeout_ready", ["C10"], sym="wait in ms and message value symbolic", bounds="unwind 8")
+H("modes_recv_after_try", ["C10"], sym="none (call sequence)", bounds="unwind 8")
+
+# ---- attachments (C04) ---------------------------------------------------------------------------
+for n in ["attach_platform_s", "attach_platform_r_pending2", "attach_platform_srs_reg2", "attach_platform_rs_multi", "attach_platform_sr_multi25"]:
+    H(n, ["C04"], sym="payload, nonces, pending messages and region fill symbolic; layout (kinds, regions, pending count, packets) concrete",
+      bounds="unwind 6; <= 3 channels + 2 regions; <= 2 pending messages")
+H("attach_ipc_mixed", ["C04"], sym="nonces and data symbolic; one value with IpcSender, IpcReceiver (1 pending), IpcSharedMemory, IpcBytesSender, OpaqueIpcSender", bounds="unwind 8")
+H("attach_ipc_two_hops", ["C04"], sym="three messages symbolic: sent before, between and after two hops of the receiver", bounds="unwind 8")
+PROPERTIES.update({k: dict(bounds="", outside="", assumptions=[]) for k in ["C03", "C04", "C05", "C09", "C10", "C18"]})
